@@ -21,8 +21,11 @@ type PathRule[S comparable] struct {
 	// followed (bounded depth, no recursion), so that extracting a block into a private helper does
 	// not change what the rule sees.
 	Follow bool
-	depth    int
-	stack    []*ssa.Function
+	// OwnPhi: the rule tracks boolean phis itself (Phi hook); the engine then does not resolve
+	// `if phi` per incoming edge.
+	OwnPhi bool
+	depth  int
+	stack  []*ssa.Function
 }
 
 type PathResult[S comparable] struct {
@@ -37,11 +40,41 @@ func RunPath[S comparable](r *PathRule[S]) *PathResult[S] {
 		return res
 	}
 	type item struct {
-		b *ssa.BasicBlock
-		s S
+		b    *ssa.BasicBlock
+		s    S
+		pred int
 	}
+	// phiCond: the block ends in `if t` where t is a boolean phi of the same block (the shape of
+	// `t := a && b; if t`, of `switch { case a && b: }` ...): the branch is then decided per incoming edge.
+	phiCond := func(b *ssa.BasicBlock) *ssa.Phi {
+		if len(b.Instrs) == 0 || r.OwnPhi {
+			return nil
+		}
+		ifi, ok := b.Instrs[len(b.Instrs)-1].(*ssa.If)
+		if !ok {
+			return nil
+		}
+		if ph, ok := ifi.Cond.(*ssa.Phi); ok && ph.Block() == b {
+			return ph
+		}
+		return nil
+	}
+	type key struct {
+		b    *ssa.BasicBlock
+		s    S
+		pred int
+	}
+	seenItem := map[key]bool{}
 	var work []item
-	add := func(b *ssa.BasicBlock, s S) {
+	add := func(b *ssa.BasicBlock, s S, pred int) {
+		if phiCond(b) == nil {
+			pred = -1
+		}
+		k := key{b, s, pred}
+		if seenItem[k] {
+			return
+		}
+		seenItem[k] = true
 		m := res.In[b]
 		if m == nil {
 			m = map[S]bool{}
@@ -49,32 +82,30 @@ func RunPath[S comparable](r *PathRule[S]) *PathResult[S] {
 		}
 		if !m[s] {
 			m[s] = true
-			work = append(work, item{b, s})
 			res.N++
 		}
+		work = append(work, item{b, s, pred})
 	}
 	for _, s := range r.Init {
-		add(r.Fn.Blocks[0], s)
+		add(r.Fn.Blocks[0], s, -1)
 	}
 	addEdge := func(from, to *ssa.BasicBlock, s S) {
-		if r.Phi != nil {
-			idx := -1
-			for i, p := range to.Preds {
-				if p == from {
-					idx = i
-				}
-			}
-			if idx >= 0 {
-				for _, ins := range to.Instrs {
-					ph, ok := ins.(*ssa.Phi)
-					if !ok {
-						break
-					}
-					s = r.Phi(s, ph, ph.Edges[idx])
-				}
+		idx := -1
+		for i, p := range to.Preds {
+			if p == from {
+				idx = i
 			}
 		}
-		add(to, s)
+		if r.Phi != nil && idx >= 0 {
+			for _, ins := range to.Instrs {
+				ph, ok := ins.(*ssa.Phi)
+				if !ok {
+					break
+				}
+				s = r.Phi(s, ph, ph.Edges[idx])
+			}
+		}
+		add(to, s, idx)
 	}
 	// Recover block (if any) is entered with the init states as well: it runs
 	// after a recovered panic; rules that care handle it explicitly.
@@ -84,11 +115,31 @@ func RunPath[S comparable](r *PathRule[S]) *PathResult[S] {
 		outs := res.flow(it.b, it.s, nil)
 		last := it.b.Instrs[len(it.b.Instrs)-1]
 		if ifi, ok := last.(*ssa.If); ok {
+			cond := ifi.Cond
+			only := -1 // successor forced by a constant incoming phi value
+			if ph := phiCond(it.b); ph != nil && it.pred >= 0 && it.pred < len(ph.Edges) {
+				eff := ph.Edges[it.pred]
+				if cb, isConst := constBool(eff); isConst {
+					if cb {
+						only = 0
+					} else {
+						only = 1
+					}
+				} else {
+					cond = eff
+				}
+			}
 			for _, s := range outs {
 				for k, succ := range it.b.Succs {
+					if only >= 0 {
+						if k == only {
+							addEdge(it.b, succ, s)
+						}
+						continue
+					}
 					ns, ok := s, true
 					if r.Branch != nil {
-						ns, ok = r.Branch(s, ifi.Cond, k == 0)
+						ns, ok = r.Branch(s, cond, k == 0)
 					}
 					if ok {
 						addEdge(it.b, succ, ns)
@@ -182,7 +233,7 @@ func (res *PathResult[S]) followable(ins ssa.Instruction) *ssa.Function {
 // callee's parameters are bound to the call's arguments for origin() while it runs.
 func (res *PathResult[S]) summary(callee *ssa.Function, call *ssa.Call, s S, visit func(ins ssa.Instruction, s S)) []S {
 	r := res.rule
-	sub := &PathRule[S]{Fn: callee, Init: []S{s}, Transfer: r.Transfer, Branch: r.Branch, Phi: r.Phi, Follow: true, depth: r.depth + 1, stack: append(append([]*ssa.Function{}, r.stack...), r.Fn)}
+	sub := &PathRule[S]{Fn: callee, Init: []S{s}, Transfer: r.Transfer, Branch: r.Branch, Phi: r.Phi, Follow: true, OwnPhi: r.OwnPhi, depth: r.depth + 1, stack: append(append([]*ssa.Function{}, r.stack...), r.Fn)}
 	var saved []ssa.Value
 	for i, par := range callee.Params {
 		saved = append(saved, paramBinding[par])
